@@ -24,3 +24,23 @@ package tblsconv
 //@ func SigToCore
 //@ props C08
 //@ ensures len(result) == 96 && forall(i, 0, 96, result[i] == sig[i])
+
+//@ pure core.PubKey.Bytes
+
+//@ func SigFromCore
+//@ props C08
+//@ ensures (r1 == nil) <==> (len(sig) == 96)
+//@ ensures r1 == nil ==> forall(i, 0, 96, r0[i] == sig[i])
+
+//@ func SigToETH2
+//@ props C08
+//@ ensures forall(i, 0, 96, result[i] == sig[i])
+
+//@ func PubkeyToETH2
+//@ props C08
+//@ ensures r1 == nil && forall(i, 0, 48, r0[i] == pk[i])
+
+//@ func PubkeyFromCore
+//@ props C08
+//@ ensures r1 == nil ==> res(1, pk.Bytes()) == nil && len(res(0, pk.Bytes())) == 48 && forall(i, 0, 48, r0[i] == res(0, pk.Bytes())[i])
+
